@@ -1,0 +1,40 @@
+//go:build verif
+
+package ls
+
+import (
+	"hash/fnv"
+	"os"
+	"strconv"
+	"strings"
+	"sync/atomic"
+	"time"
+)
+
+// verifPoint widens goroutine interleavings around the request handlers when
+// VERIF_LS_DELAYS=<seed>:<max_us> is set. Only compiled in with the "verif" tag.
+var (
+	verifSeed, verifMax uint64
+	verifCounter        atomic.Uint64
+)
+
+func init() {
+	v := os.Getenv("VERIF_LS_DELAYS")
+	if v == "" {
+		return
+	}
+	a, b, _ := strings.Cut(v, ":")
+	verifSeed, _ = strconv.ParseUint(a, 10, 64)
+	verifMax, _ = strconv.ParseUint(b, 10, 64)
+}
+
+func verifPoint(name string) {
+	if verifMax == 0 {
+		return
+	}
+	n := verifCounter.Add(1)
+	h := fnv.New64a()
+	h.Write([]byte(name))
+	h.Write([]byte(strconv.FormatUint(verifSeed*1000003+n, 10)))
+	time.Sleep(time.Duration(h.Sum64()%verifMax) * time.Microsecond)
+}
